@@ -217,7 +217,7 @@ def run(tier='quick', seed=0, nproc=16):
   n = 3 if tier == 'quick' else 5
   jobs = gen.shuffled([(s.kinds, s.hasdef) for s in gen.all_sigs(n)])
   res = common.pmap(check_sig, jobs, nproc)
-  res.append(sharing_cases())
+  res.append(common.guard(sharing_cases))
   return common.merge(
       res, 'layerb.prop_C06', keyfn=lambda v: v.get('scenario'),
       rule='all ordered pairs of variants of every (signature <= %d params, store): equality-'
